@@ -271,6 +271,7 @@ pub fn gen_plan(rng: &mut Rng, w: &Workload) -> (Plan, Swarm) {
             pid: rng.range(1, 4_000_000) as i64,
             env,
             cpus: *rng.pick(&[1u32, 1, 2, 3, 4, 8, 16, 64]),
+            tty: rng.chance(200),
             argv: if rng.chance(450) { rng.pick(&ARGVS).iter().map(|s| s.to_string()).collect() } else { vec![] },
             jobs: ejobs,
             decisions,
@@ -367,6 +368,7 @@ impl References {
         let mut plan_b = Plan::solo(p, 0xfedc_ba98_7654_3210 ^ key.rotate_left(13), 17);
         plan_b.epochs[0].env = vec![("PATH".to_string(), "$SCRATCH/bin:/usr/bin:/bin".to_string())];
         plan_b.epochs[0].cpus = 4;
+        plan_b.epochs[0].tty = true;
         plan_b.epochs[0].argv = ["--test", "--crate-name", "ref_b", "--edition=2021", "--cfg", "test", "-C", "opt-level=3"].iter().map(|s| s.to_string()).collect();
         // the second solo session runs the macro as built WITH debug assertions (and overflow
         // checks) when that flavour of the simulator exists: what `cargo build` vs
